@@ -541,9 +541,10 @@ pub const EVALS: &[&str] = &[
     "x=ABC; [[ ${x/abc/z} == z ]]",
     // the same text as an arithmetic expression (no tilde expansion) and as a word (with it)
     "[[ $((~0)) == -1 ]]",
-    "v=~0; [[ \"$v\" != '~0' ]]",
+    "set -- ~0; [[ \"$1\" != '~0' ]]",
     "[[ $((~+1)) == -2 ]]",
-    "v=~+; [[ \"$v\" != '~+' ]]",
+    "set -- ~+; [[ \"$1\" != '~+' ]]",
+    "v=~0; [[ \"$v\" != '~0' ]]",
 ];
 pub const ARITH: &[&str] = &["1+2", "x=3", "a?b:c", "x++ + ++y", "(1+2)*3", "1 +", "2**3", "a[1]", "x<<=2", "!a && b"];
 
